@@ -58,18 +58,31 @@ def TrInv (st : State) : Prop :=
 @[simp] theorem emit_proto (st : State) (o : Output) : (emit st o).proto = st.proto := by
   cases o <;> simp [emit, State.setConn] <;> split <;> rfl
 
-@[simp] theorem applyClose_full (c : Conn) : applyClose c false = Conn.shut := rfl
-@[simp] theorem applyClose_half_read (c : Conn) : (applyClose c true).canRead = c.canRead := rfl
-@[simp] theorem applyClose_half_write (c : Conn) : (applyClose c true).canWrite = false := rfl
+@[simp] theorem applyClose_full (c : Conn) (f : Bool) : applyClose c false f = Conn.shut := rfl
+@[simp] theorem applyClose_half_read (c : Conn) (f : Bool) : (applyClose c true f).canRead = (!f && c.canRead) := by
+  cases f <;> rfl
+@[simp] theorem applyClose_half_write (c : Conn) (f : Bool) : (applyClose c true f).canWrite = false := by
+  cases f <;> rfl
+@[simp] theorem emit_cEof (st : State) (o : Output) : (emit st o).cEofFail = st.cEofFail := by
+  cases o <;> simp [emit, State.setConn] <;> split <;> rfl
+@[simp] theorem emit_sEof (st : State) (o : Output) : (emit st o).sEofFail = st.sEofFail := by
+  cases o <;> simp [emit, State.setConn] <;> split <;> rfl
+@[simp] theorem applyKill_fields (st : State) :
+    (applyKill st).flow = st.flow ∧ (applyKill st).trace = st.trace ∧ (applyKill st).msgs = st.msgs ∧
+    (applyKill st).pending = st.pending ∧ (applyKill st).phase = st.phase ∧ (applyKill st).queue = st.queue ∧
+    (applyKill st).connected = st.connected ∧ (applyKill st).proto = st.proto ∧
+    (applyKill st).connectAs = st.connectAs ∧ (applyKill st).client = st.client ∧ (applyKill st).server = st.server ∧
+    (applyKill st).cEofFail = st.cEofFail ∧ (applyKill st).sEofFail = st.sEofFail := by
+  unfold applyKill; split <;> simp
 @[simp] theorem shut_read : Conn.shut.canRead = false := rfl
 @[simp] theorem shut_write : Conn.shut.canWrite = false := rfl
 @[simp] theorem emit_client (st : State) (o : Output) : (emit st o).client =
-    (match o with | .close .client half => applyClose st.client half | _ => st.client) := by
-  cases o <;> simp [emit, State.setConn, State.conn]
+    (match o with | .close .client half => applyClose st.client half st.cEofFail | _ => st.client) := by
+  cases o <;> simp [emit, State.setConn, State.conn, State.eofFail]
   rename_i c h; cases c <;> simp
 @[simp] theorem emit_server (st : State) (o : Output) : (emit st o).server =
-    (match o with | .close .server half => applyClose st.server half | _ => st.server) := by
-  cases o <;> simp [emit, State.setConn, State.conn]
+    (match o with | .close .server half => applyClose st.server half st.sEofFail | _ => st.server) := by
+  cases o <;> simp [emit, State.setConn, State.conn, State.eofFail]
   rename_i c h; cases c <;> simp
 @[simp] theorem emit_connectAs (st : State) (o : Output) : (emit st o).connectAs = st.connectAs := by
   cases o <;> simp [emit, State.setConn] <;> split <;> rfl
@@ -128,7 +141,7 @@ def KInv (q : List Ev) (st : State) : Prop :=
   (st.phase = .idle → st.client.canRead = true ∧ (st.connected = true → st.server.canRead = true)) ∧
   (st.phase = .start → (st.client.canRead = true ∨ Ev.closed .client ∈ q) ∧
       (st.connected = true → st.server.canRead = true ∨ Ev.closed .server ∈ q)) ∧
-  (st.phase = .relay → st.proto = .tcp →
+  (st.phase = .relay → st.proto = .tcp → st.cEofFail = false → st.sEofFail = false →
       st.client.canRead = true ∨ st.server.canRead = true ∨ Ev.closed .client ∈ q ∨ Ev.closed .server ∈ q) ∧
   (st.phase = .relay → st.proto = .udp →
       (st.client.canRead = true ∨ Ev.closed .client ∈ q) ∧ (st.server.canRead = true ∨ Ev.closed .server ∈ q))
@@ -199,8 +212,8 @@ theorem kinv_mono {q q' : List Ev} {st : State} (hm : ∀ e, e ∈ q → e ∈ q
   · intro hp
     obtain ⟨a, b⟩ := h2 hp
     exact ⟨a.imp id (hm _), fun hc => (b hc).imp id (hm _)⟩
-  · intro hp ht
-    rcases h3 hp ht with a | a | a | a
+  · intro hp ht hc hs
+    rcases h3 hp ht hc hs with a | a | a | a
     · exact Or.inl a
     · exact Or.inr (Or.inl a)
     · exact Or.inr (Or.inr (Or.inl (hm _ a)))
@@ -270,7 +283,7 @@ macro "inv_tac" h:ident k:ident : tactic => `(tactic| (
   obtain ⟨k0, k1, k2, k3, k4⟩ := $k
   simp_all [scan_app, scan, isEndOrError, quiet, isSend, isHook, isFull]))
 
-theorem full_step (st : State) (i : Input) (h : Full st) : Full (step st i) := by
+theorem full_step_aux (st : State) (i : Input) (hi : i ≠ .hookKill) (h : Full st) : Full (step st i) := by
   obtain ⟨hI, hK, hQ⟩ := h
   unfold step
   split
@@ -299,6 +312,7 @@ theorem full_step (st : State) (i : Input) (h : Full st) : Full (step st i) := b
   · rename_i hph
     have hph' : st.phase ≠ .idle := by intro h; exact hph h
     cases i with
+    | hookKill => exact absurd rfl hi
     | start => exact ⟨hI, hK, hQ⟩
     | data src d =>
       exact full_deliver st _ hI (kinv_mono (fun e he => List.mem_append_left _ he) hK) hQ
@@ -359,6 +373,14 @@ theorem full_step (st : State) (i : Input) (h : Full st) : Full (step st i) := b
           · inv_tac hI hK
       · exact ⟨hI, hK, hQ⟩
 
+theorem full_applyKill (st : State) (h : Full st) : Full (applyKill st) := by
+  obtain ⟨hI, hK, hQ⟩ := h
+  have hf := applyKill_fields st
+  refine ⟨?_, ?_, ?_⟩
+  · unfold TrInv at *; simpa [hf] using hI
+  · unfold KInv at *; simpa [hf] using hK
+  · unfold QInv at *; simpa [hf] using hQ
+
 /-- configuration is constant, the message list is untouched and the command log only grows -/
 def Ext (a b : State) : Prop :=
   b.flow = a.flow ∧ b.proto = a.proto ∧ b.connectAs = a.connectAs ∧ b.msgs = a.msgs ∧ ∃ r, b.trace = a.trace ++ r
@@ -407,7 +429,7 @@ theorem deliver_cfg (st : State) (ev : Ev) : Cfg st (deliver st ev) := by
 theorem drain_cfg' (q : List Ev) (st st0 : State) (h : Cfg st0 st) : Cfg st0 (drain q st) :=
   h.trans (drain_ext q st).cfg
 
-theorem step_cfg (st : State) (i : Input) : Cfg st (step st i) := by
+theorem step_cfg_aux (st : State) (i : Input) (hi : i ≠ .hookKill) : Cfg st (step st i) := by
   unfold step
   split
   · cases i with
@@ -418,6 +440,7 @@ theorem step_cfg (st : State) (i : Input) : Cfg st (step st i) := by
       · split <;> simp [Cfg]
     | _ => simp [Cfg]
   · cases i with
+    | hookKill => exact absurd rfl hi
     | start => simp [Cfg]
     | data src d => exact deliver_cfg _ _
     | inject fc d => exact deliver_cfg _ _
@@ -443,6 +466,34 @@ theorem step_cfg (st : State) (i : Input) : Cfg st (step st i) := by
         · apply drain_cfg'; simp [Cfg]
       · simp [Cfg]
 
+/-- completing a hook in which the addon killed the flow = marking the flow killed, then completing the hook -/
+theorem step_hookKill (st : State) :
+    step st .hookKill = st ∨ step st .hookKill = step (applyKill st) (.hookDone none) := by
+  have hf := applyKill_fields st
+  unfold step
+  rw [hf.2.2.2.2.1]
+  split
+  · left; rfl
+  · rw [hf.2.2.2.1]
+    cases hp : st.pending with
+    | none => left; rfl
+    | connect => left; rfl
+    | startHook => right; rfl
+    | errorHook => right; rfl
+    | endHook => right; rfl
+    | msgHook to m => right; simp [editMsg, hf.2.2.1, hf.2.2.2.2.2.1]
+
+theorem applyKill_cfg (st : State) : Cfg st (applyKill st) :=
+  ⟨(applyKill_fields st).1, (applyKill_fields st).2.2.2.2.2.2.2.1, (applyKill_fields st).2.2.2.2.2.2.2.2.1⟩
+
+theorem step_cfg (st : State) (i : Input) : Cfg st (step st i) := by
+  by_cases hi : i = .hookKill
+  · subst hi
+    rcases step_hookKill st with h | h
+    · rw [h]; simp [Cfg]
+    · rw [h]; exact (applyKill_cfg st).trans (step_cfg_aux _ _ (by simp))
+  · exact step_cfg_aux st i hi
+
 theorem run_cfg (st : State) (is : List Input) : Cfg st (run st is) := by
   induction is generalizing st with
   | nil => simp [run, Cfg]
@@ -454,6 +505,14 @@ theorem full_init (p : Proto) (f c : Bool) : Full (init p f c) := by
   · cases c <;> simp [KInv, init, Conn.opened]
   · simp [QInv, init]
 
+theorem full_step (st : State) (i : Input) (h : Full st) : Full (step st i) := by
+  by_cases hi : i = .hookKill
+  · subst hi
+    rcases step_hookKill st with e | e
+    · rw [e]; exact h
+    · rw [e]; exact full_step_aux _ _ (by simp) (full_applyKill st h)
+  · exact full_step_aux st i hi h
+
 theorem full_run (st : State) (is : List Input) (h : Full st) : Full (run st is) := by
   induction is generalizing st with
   | nil => exact h
@@ -464,20 +523,15 @@ theorem full_run (st : State) (is : List Input) (h : Full st) : Full (run st is)
 /-- TCP relay: a side that can no longer be read has either its `ConnectionClosed` still waiting in the
     queue or the half-close of the opposite connection already yielded -/
 def HInv (q : List Ev) (st : State) : Prop :=
-  st.proto = .tcp → st.phase = .relay → ∀ s, (st.conn s).canRead = false →
-    Ev.closed s ∈ q ∨ Output.close s.other true ∈ st.trace
+  st.cEofFail = false → st.sEofFail = false → st.proto = .tcp → st.phase = .relay →
+    ∀ s, (st.conn s).canRead = false → Ev.closed s ∈ q ∨ Output.close s.other true ∈ st.trace
 
 theorem hinv_setq {st : State} (q q' : List Ev) : HInv q' { st with queue := q } ↔ HInv q' st := by
   simp [HInv, State.conn]
 
 theorem hinv_mono {q q' : List Ev} {st : State} (hm : ∀ e, e ∈ q → e ∈ q') (h : HInv q st) : HInv q' st := by
-  intro h1 h2 s hs
-  exact (h h1 h2 s hs).imp (hm _) id
-
-theorem conn_emit_read (st : State) (o : Output) (s : Side) (hne : ∀ c, o ≠ .close c false) :
-    ((emit st o).conn s).canRead = (st.conn s).canRead := by
-  cases s <;> cases o <;> simp [State.conn]
-  all_goals (rename_i c half; cases c <;> cases half <;> simp_all)
+  intro f1 f2 h1 h2 s hs
+  exact (h f1 f2 h1 h2 s hs).imp (hm _) id
 
 theorem hinv_handle {q : List Ev} {st : State} {e : Ev} (hI : TrInv st) (h : HInv (e :: q) st)
     (hp : st.pending = .none) : HInv q (handle st e) := by
@@ -488,18 +542,22 @@ theorem hinv_handle {q : List Ev} {st : State} {e : Ev} (hI : TrInv st) (h : HIn
     | data src d =>
       simp only [handleData]
       split
-      · intro h1 h2 s hs
+      · intro f1 f2 h1 h2 s hs
+        have f1' : st.cEofFail = false := by simpa using f1
+        have f2' : st.sEofFail = false := by simpa using f2
         have h1' : st.proto = .tcp := by simpa using h1
         have hs' : (st.conn s).canRead = false := by
           cases s <;> simpa [State.conn] using hs
-        rcases h h1' hph s hs' with hm | hm
+        rcases h f1' f2' h1' hph s hs' with hm | hm
         · simp at hm; exact Or.inl hm
         · right; simp [hm]
-      · intro h1 h2 s hs
+      · intro f1 f2 h1 h2 s hs
+        have f1' : st.cEofFail = false := by simpa using f1
+        have f2' : st.sEofFail = false := by simpa using f2
         have h1' : st.proto = .tcp := by simpa using h1
         have hs' : (st.conn s).canRead = false := by
           cases s <;> simpa [State.conn] using hs
-        rcases h h1' hph s hs' with hm | hm
+        rcases h f1' f2' h1' hph s hs' with hm | hm
         · simp at hm; exact Or.inl hm
         · right; simp [hm]
     | closed s0 =>
@@ -508,27 +566,29 @@ theorem hinv_handle {q : List Ev} {st : State} {e : Ev} (hI : TrInv st) (h : HIn
       · rename_i hpr
         split
         · -- all done: the relay is over
-          intro h1 h2
+          intro f1 f2 h1 h2
           exfalso
           revert h2
           simp only [finish]
           split <;> split <;> split <;> simp
-        · intro h1 h2 s hs
+        · intro f1 f2 h1 h2 s hs
+          have f1' : st.cEofFail = false := by simpa using f1
+          have f2' : st.sEofFail = false := by simpa using f2
           have hs' : (st.conn s).canRead = false := by
-            cases s <;> cases s0 <;> simpa [State.conn, Side.other] using hs
-          rcases h hpr hph s hs' with hm | hm
+            cases s <;> cases s0 <;> simpa [State.conn, Side.other, f1', f2'] using hs
+          rcases h f1' f2' hpr hph s hs' with hm | hm
           · simp at hm
             rcases hm with rfl | hm
             · right; simp
             · exact Or.inl hm
           · right; simp [hm]
       · rename_i hpr
-        intro h1
+        intro f1 f2 h1
         exfalso
         revert h1
         simp only [finish]
         split <;> simp [hpr]
-  · intro h1 h2 s hs
+  · intro f1 f2 h1 h2 s hs
     rename_i hne
     exact absurd h2 (by intro hh; exact hne hh)
 
@@ -546,7 +606,9 @@ theorem hinv_drain (q : List Ev) (st : State) (h : TrInv st) (hk : KInv q st) (h
 theorem hinv_closed {st : State} {s : Side} {c : Conn} (h : HInv st.queue st) :
     HInv (st.queue ++ [Ev.closed s]) (st.setConn s c) := by
   have hf := setConn_fields st s c
-  intro h1 h2 s' hs
+  intro f1 f2 h1 h2 s' hs
+  have f1' : st.cEofFail = false := by cases s <;> simpa [State.setConn] using f1
+  have f2' : st.sEofFail = false := by cases s <;> simpa [State.setConn] using f2
   rw [hf.2.2.2.2.2.2.2.1] at h1
   rw [hf.2.2.2.2.1] at h2
   rw [hf.2.1]
@@ -554,7 +616,7 @@ theorem hinv_closed {st : State} {s : Side} {c : Conn} (h : HInv st.queue st) :
   · subst e; left; simp
   · have hs' : (st.conn s').canRead = false := by
       cases s' <;> cases s <;> simp_all [State.conn, State.setConn]
-    exact (h h1 h2 s' hs').imp (fun hm => List.mem_append_left _ hm) id
+    exact (h f1' f2' h1 h2 s' hs').imp (fun hm => List.mem_append_left _ hm) id
 
 theorem hinv_deliver (st : State) (ev : Ev) (hI : TrInv st) (hK : KInv (st.queue ++ [ev]) st)
     (hH : HInv (st.queue ++ [ev]) st) (hQ : QInv st) : HInv (deliver st ev).queue (deliver st ev) := by
@@ -569,7 +631,7 @@ theorem hinv_deliver (st : State) (ev : Ev) (hI : TrInv st) (hK : KInv (st.queue
 
 def Full2 (st : State) : Prop := Full st ∧ HInv st.queue st
 
-theorem full2_step (st : State) (i : Input) (h : Full2 st) : Full2 (step st i) := by
+theorem full2_step_aux (st : State) (i : Input) (hi : i ≠ .hookKill) (h : Full2 st) : Full2 (step st i) := by
   obtain ⟨hF, hH⟩ := h
   refine ⟨full_step st i hF, ?_⟩
   obtain ⟨hI, hK, hQ⟩ := hF
@@ -581,18 +643,19 @@ theorem full2_step (st : State) (i : Input) (h : Full2 st) : Full2 (step st i) :
     | start =>
       simp only
       split
-      · intro h1 h2; simp at h2
+      · intro f1 f2 h1 h2; simp at h2
       · unfold enterRelayOrConnect
         split
-        · intro h1 h2 s hs
+        · intro f1 f2 h1 h2 s hs
           exfalso
           rename_i hc
           cases s <;> simp_all [State.conn]
-        · intro h1 h2; simp at h2
+        · intro f1 f2 h1 h2; simp at h2
     | _ => exact hH
   · rename_i hph
     have hph' : st.phase ≠ .idle := by intro h; exact hph h
     cases i with
+    | hookKill => exact absurd rfl hi
     | start => exact hH
     | data src d =>
       exact hinv_deliver st _ hI (kinv_mono (fun e he => List.mem_append_left _ he) hK)
@@ -623,7 +686,7 @@ theorem full2_step (st : State) (i : Input) (h : Full2 st) : Full2 (step st i) :
         · unfold enterRelayOrConnect
           split
           · rename_i hc
-            intro h1 h2 s hs
+            intro f1 f2 h1 h2 s hs
             left
             have hst : st.phase = .start := by
               have := hI; unfold TrInv at this
@@ -638,7 +701,7 @@ theorem full2_step (st : State) (i : Input) (h : Full2 st) : Full2 (step st i) :
               rcases k2 hc with k2 | k2
               · simp [this] at k2
               · exact k2
-          · intro h1 h2
+          · intro f1 f2 h1 h2
             have hst : st.phase = .start := by
               have := hI; unfold TrInv at this
               obtain ⟨-, -, -, -, h5, -⟩ := this; exact (h5 hp).1
@@ -648,7 +711,7 @@ theorem full2_step (st : State) (i : Input) (h : Full2 st) : Full2 (step st i) :
         refine hinv_drain _ _ ?_ ?_ ?_
         · unfold afterError; inv_tac hI hK
         · unfold afterError; inv_tac hI hK
-        · intro h1 h2; simp [afterError] at h2
+        · intro f1 f2 h1 h2; simp [afterError] at h2
       · -- msgHook
         rename_i to m hp
         refine hinv_drain _ _ ?_ ?_ ?_
@@ -657,11 +720,11 @@ theorem full2_step (st : State) (i : Input) (h : Full2 st) : Full2 (step st i) :
           rw [recorded_snoc]
           cases to <;> cases s <;> simp_all
         · inv_tac hI hK
-        · intro h1 h2 s hs
+        · intro f1 f2 h1 h2 s hs
           have h1' : st.proto = .tcp := by simpa using h1
           have h2' : st.phase = .relay := by simpa using h2
           have hs' : (st.conn s).canRead = false := by cases s <;> simpa [State.conn] using hs
-          rcases hH h1' h2' s hs' with hm | hm
+          rcases hH (by simpa using f1) (by simpa using f2) h1' h2' s hs' with hm | hm
           · exact Or.inl hm
           · right; simp [hm]
       · -- endHook
@@ -669,7 +732,7 @@ theorem full2_step (st : State) (i : Input) (h : Full2 st) : Full2 (step st i) :
         refine hinv_drain _ _ ?_ ?_ ?_
         · inv_tac hI hK
         · inv_tac hI hK
-        · intro h1 h2
+        · intro f1 f2 h1 h2
           have : st.phase = .done := by
             have := hI; unfold TrInv at this
             obtain ⟨-, -, -, -, -, -, -, h8, -⟩ := this; exact (h8 hp).1
@@ -684,15 +747,15 @@ theorem full2_step (st : State) (i : Input) (h : Full2 st) : Full2 (step st i) :
           obtain ⟨-, -, -, -, -, h6, -⟩ := this; exact (h6 hp).1
         split
         · split
-          · intro h1 h2; simp [hst] at h2
+          · intro f1 f2 h1 h2; simp [hst] at h2
           · refine hinv_drain _ _ ?_ ?_ ?_
             · unfold afterError; inv_tac hI hK
             · unfold afterError; inv_tac hI hK
-            · intro h1 h2; simp [afterError] at h2
+            · intro f1 f2 h1 h2; simp [afterError] at h2
         · refine hinv_drain _ _ ?_ ?_ ?_
           · inv_tac hI hK
           · inv_tac hI hK
-          · intro h1 h2 s hs
+          · intro f1 f2 h1 h2 s hs
             left
             obtain ⟨k1, -⟩ := hK.2.2.1 hst
             cases s
@@ -705,8 +768,21 @@ theorem full2_step (st : State) (i : Input) (h : Full2 st) : Full2 (step st i) :
               simp [this] at hr
       · exact hH
 
+theorem full2_step (st : State) (i : Input) (h : Full2 st) : Full2 (step st i) := by
+  by_cases hi : i = .hookKill
+  · subst hi
+    rcases step_hookKill st with e | e
+    · rw [e]; exact h
+    · rw [e]
+      refine full2_step_aux _ _ (by simp) ⟨full_applyKill st h.1, ?_⟩
+      have hf := applyKill_fields st
+      have := h.2
+      unfold HInv at *
+      simpa [hf, State.conn] using this
+  · exact full2_step_aux st i hi h
+
 theorem full2_init (p : Proto) (f c : Bool) : Full2 (init p f c) :=
-  ⟨full_init p f c, by intro h1 h2; simp [init] at h2⟩
+  ⟨full_init p f c, by intro f1 f2 h1 h2; simp [init] at h2⟩
 
 theorem full2_run (st : State) (is : List Input) (h : Full2 st) : Full2 (run st is) := by
   induction is generalizing st with
